@@ -1,5 +1,5 @@
 """
-Facts about PooledJSONRPCServer's life cycle methods (C12).
+Facts about PooledJSONRPCServer's life cycle methods and the catch-all handlers of the serve path (C12).
 """
 import ast
 
@@ -20,26 +20,96 @@ def _call_desc(call):
     return "?"
 
 
+def _flatten(stmts):
+    """Statements in execution order; `try: A finally: B` (no handlers, no else) runs A then B — the same calls in the
+    same order as the plain sequence when nothing raises, and B even when A raises: it is read as A; B."""
+    out = []
+    for st in stmts:
+        if isinstance(st, ast.Try) and not st.handlers and not st.orelse:
+            out.extend(_flatten(st.body))
+            out.extend(_flatten(st.finalbody))
+        else:
+            out.append(st)
+    return out
+
+
 def _server_close(fn):
     """Sequence of calls of server_close; a call guarded by `if self.__serving` is prefixed with 'if-serving:'."""
     out = []
-    for st in fn.body:
+    for st in _flatten(fn.body):
         if isinstance(st, ast.Expr) and isinstance(st.value, ast.Call):
             out.append(_call_desc(st.value))
         elif isinstance(st, ast.If):
             guard = ast.unparse(st.test)
             tag = "if-serving:" if "serving" in guard and not isinstance(st.test, ast.UnaryOp) else "if(%s):" % guard
-            for s2 in st.body:
+            for s2 in _flatten(st.body):
                 if isinstance(s2, ast.Expr) and isinstance(s2.value, ast.Call):
                     out.append(tag + _call_desc(s2.value))
-            for s2 in st.orelse:
+                elif not (isinstance(s2, ast.Expr) and isinstance(s2.value, ast.Constant)) and not isinstance(s2, ast.Pass):
+                    out.append(tag + "stmt:" + type(s2).__name__)
+            for s2 in _flatten(st.orelse):
                 if isinstance(s2, ast.Expr) and isinstance(s2.value, ast.Call):
                     out.append("else:" + _call_desc(s2.value))
+                elif not isinstance(s2, ast.Pass):
+                    out.append("else:stmt:" + type(s2).__name__)
         elif isinstance(st, ast.Expr) and isinstance(st.value, ast.Constant):
             continue  # docstring
+        elif isinstance(st, ast.Pass):
+            continue
         else:
             out.append("stmt:" + type(st).__name__)
     return out
+
+
+def _catches_everything(handler):
+    """`except:` or `except BaseException [as e]:` (alone or in a tuple)."""
+    t = handler.type
+    if t is None:
+        return True
+    names = t.elts if isinstance(t, ast.Tuple) else [t]
+    return any(isinstance(n, ast.Name) and n.id == "BaseException" for n in names)
+
+
+def _guarded_by_catch_all(fn, is_target_call):
+    """Does a `try` of `fn` whose *body* contains a call selected by `is_target_call` have a handler that catches every
+    BaseException and does not re-raise it bare?  None when no such call sits in a try body."""
+    found = None
+    for node in ast.walk(fn):
+        if not isinstance(node, ast.Try):
+            continue
+        inside = any(isinstance(n, ast.Call) and is_target_call(n) for st in node.body for n in ast.walk(st))
+        if not inside:
+            continue
+        ok = False
+        for h in node.handlers:
+            if _catches_everything(h):
+                reraises = any(isinstance(n, ast.Raise) and n.exc is None for st in h.body for n in ast.walk(st))
+                ok = not reraises
+                break
+        found = ok if found is None else (found or ok)
+    return found
+
+
+def _catch_all(src):
+    """(the method call in _dispatch, the whole exchange in do_POST) are guarded by a handler catching BaseException"""
+    disp = src.func("SimpleJSONRPCServer", "SimpleJSONRPCDispatcher._dispatch")
+    post = src.func("SimpleJSONRPCServer", "SimpleJSONRPCRequestHandler.do_POST")
+    if disp is None or post is None:
+        return None
+
+    def is_method_call(c):
+        # func(*params) / func(**params)
+        return isinstance(c.func, ast.Name) and (any(isinstance(a, ast.Starred) for a in c.args)
+                                                 or any(k.arg is None for k in c.keywords))
+
+    def is_dispatch_call(c):
+        return isinstance(c.func, ast.Attribute) and c.func.attr == "_marshaled_dispatch"
+
+    a = _guarded_by_catch_all(disp, is_method_call)
+    b = _guarded_by_catch_all(post, is_dispatch_call)
+    if a is None or b is None:
+        return None
+    return (a, b)
 
 
 def _serve_flag(fn):
@@ -75,7 +145,11 @@ def facts(src):
     pr = None
     if proc is not None:
         pr = any(isinstance(n, ast.Call) and isinstance(n.func, ast.Attribute) and n.func.attr == "enqueue" for n in ast.walk(proc))
+    ca = _catch_all(src)
     return [
+        Fact("servePathCatchAll", "Bool × Bool", None if ca is None else "(%s, %s)" % (lean_bool(ca[0]), lean_bool(ca[1])), ["C12"],
+             "the `try` around the method call in _dispatch / around the exchange in do_POST has a handler catching every "
+             "BaseException (bare `except:`) that does not re-raise", json_value=ca),
         Fact("pooledServerClose", "List String", None if sc is None else lean_list([lean_str(x) for x in sc]), ["C12"],
              "PooledJSONRPCServer.server_close: calls in order", json_value=sc),
         Fact("pooledServeForeverSetsFlag", "Bool × Bool", None if sf is None else "(%s, %s)" % (lean_bool(sf[0]), lean_bool(sf[1])), ["C12"],
